@@ -217,6 +217,28 @@ class RIt(It):
         return self.vec.items[i]
 
 
+class SetObj(Vec):
+    """std::set over values with a natural order (the rules that use it model elements as integers or tuples): sorted, no duplicates"""
+    def __init__(self, items=None):
+        Vec.__init__(self, sorted(set(items or [])), "set")
+
+    def copy_value(self):
+        return SetObj(self.items)
+
+    def insert(self, x):
+        import bisect
+        i = bisect.bisect_left(self.items, x)
+        if i < len(self.items) and self.items[i] == x:
+            return (It(self, i), False)
+        self.items.insert(i, x)
+        return (It(self, i), True)
+
+    def find(self, x):
+        import bisect
+        i = bisect.bisect_left(self.items, x)
+        return It(self, i if i < len(self.items) and self.items[i] == x else len(self.items))
+
+
 class Buf:
     """fixed-size array of cells (char buf[N])"""
     def __init__(self, n):
@@ -568,7 +590,8 @@ def _vector_hooks():
         "method:emplace_back": lambda ev, o, a: o.items.append(_cp(a[0])) if len(a) == 1 else (_ for _ in ()).throw(Broken("emplace_back with %d arguments" % len(a))),
         "method:pop_back": lambda ev, o, a: (_chk_idx(o, len(o.items) - 1, "pop_back()"), o.items.pop())[1],
         "method:clear": lambda ev, o, a: o.items.clear(),
-        "method:insert": lambda ev, o, a: _insert(o, a),
+        "method:insert": lambda ev, o, a: o.insert(a[0]) if isinstance(o, SetObj) and len(a) == 1 else _insert(o, a),
+        "method:count": lambda ev, o, a: (1 if o.find(a[0]).pos < len(o.items) else 0) if isinstance(o, SetObj) else sum(1 for x in o.items if x == a[0]),
         "method:erase": lambda ev, o, a: _erase(o, a),
         "method:operator*": lambda ev, o, a: o.deref() if isinstance(o, It) else (o.load() if isinstance(o, Ptr) else o),
         "method:operator->": lambda ev, o, a: o.deref() if isinstance(o, It) else o,
@@ -867,10 +890,16 @@ class CxxEvaluator(Evaluator):
             u = e["e"]
             while isinstance(u, dict) and u.get("k") == "cast":
                 u = u["e"]
-            if isinstance(u, dict) and u.get("k") == "call" and u.get("fn") == "operator*":
-                it = self.eval(u.get("obj") if u.get("obj") is not None else u["a"][0], env, this)
+            if isinstance(u, dict) and u.get("k") == "call" and u.get("fn") == "operator*" and not (self.prog is not None and (self.prog.funcs.get(u.get("fid")) or {}).get("body") is not None) \
+               and self.hook_for(u.get("f", "")) is None:
+                it = self.eval(u.get("obj") if u.get("obj") is not None else u["a"][0], env, this)      # evaluated exactly once
                 if isinstance(it, It) and not isinstance(it, RIt) and it.vec.items and isinstance(it.vec.items[0], (int, bool)):
                     return Ptr(it.vec.items, it.pos)      # address of an element of a vector of scalars: a pointer into its storage
+                if isinstance(it, It):
+                    return it.deref()                     # the address of an object is the object
+                if isinstance(it, (Ptr, VarPtr)):
+                    return it
+                return it                                 # smart pointer: &*p is the pointee
             if isinstance(u, dict) and u.get("k") == "ref" and u.get("d") in ("local", "param", "slocal"):
                 cur = env.get(u["id"])
                 if cur is None or isinstance(cur, (int, bool)):
@@ -891,7 +920,9 @@ class CxxEvaluator(Evaluator):
                 d = self._default(c)
                 if d is not None:
                     return d
-            if not e.get("a") and c.startswith(("std::vector<", "std::map<", "std::set<")):
+            if not e.get("a") and c.startswith("std::set<"):
+                return SetObj()
+            if not e.get("a") and c.startswith(("std::vector<", "std::map<")):
                 return Vec([], "vector")
             if not e.get("a") and e.get("implicit") and self.hook_for("ctor:" + c) is None and \
                not (self.prog is not None and (self.prog.funcs.get(e.get("fid")) or {}).get("inits")):
@@ -937,6 +968,11 @@ class CxxEvaluator(Evaluator):
             return rhs
         if k == "un" and e.get("op") in ("-", "~", "+") :
             v = self.eval(e["e"], env, this)
+            if not isinstance(v, (int, bool)):
+                if isinstance(v, tuple) and v and v[0] == "enum" and v[2] is not None:
+                    v = int(v[2])
+                else:
+                    raise Broken("unary %s on a value the evaluator does not model at %s" % (e["op"], e.get("l")))
             if isinstance(v, (int, bool)):
                 t = e.get("t") or "unsigned long"
                 v = conv(v, t)
@@ -989,6 +1025,18 @@ class CxxEvaluator(Evaluator):
                 if not hasattr(b, e["n"]):
                     raise OutOfBounds("read of the field %s of %s before anything was stored in it" % (e["n"], getattr(b, "_cls", getattr(b, "_t", "?"))))
                 return getattr(b, e["n"])
+            # (the base class would evaluate e["b"] a second time: finish here with the value already computed)
+            if e["n"] == "":
+                return b
+            if isinstance(b, tuple) and e["n"] in ("first", "second") and (not b or b[0] != "enum"):
+                return b[0 if e["n"] == "first" else 1]
+            if isinstance(b, dict):
+                if e["n"] not in b:
+                    raise Broken("abstract object has no field %s" % e["n"])
+                return b[e["n"]]
+            if hasattr(b, e["n"]):
+                return getattr(b, e["n"])
+            raise Broken("read of the field %s of an object the domain does not model (%s)" % (e["n"], type(b).__name__))
         if k == "call" and e.get("f", "").startswith(("std::make_unique<", "std::make_shared<")) and self.hook_for(e["f"]) is None and self.prog is not None and e.get("targs"):
             T = e["targs"][0]
             args = [self.eval(a, env, this) for a in e.get("a", [])]
